@@ -488,59 +488,64 @@ def _shards_verdict(tier):
     out += _verdict_block(0, 3, q, optim=[0], perm=[0, 1, 2, 3, 4, 5], shuf=[0])        # every order
     out += _verdict_block(0, 3, q, optim=[7], perm=[0, 5], shuf=[0])                    # the default optim
     out += _verdict_block(0, 3, q, optim=[1, 2, 3, 4, 5, 6], perm=[0], shuf=[0])        # every heuristic
-    out += _verdict_block(0, 3, q, optim=[8], perm=[0], shuf=[1, 5])                    # shuffle stub
+    out += _verdict_block(0, 3, q, optim=[8], perm=[0], shuf=[5])                       # shuffle stub
     # 0..2 rules: every optim, every order, every shuffle (nothing else pinned)
     out += product_pins(fam=[0], m=[2], ng=[4], grp=[0, 1, 2, 3])
     out += product_pins(fam=[0], m=[0, 1], ng=[1], grp=[0])
     # fam 1 = {S,A} x {f,g}: 26 rules, 3276 multisets of 3 (pushed and consumed index may differ)
     out += _verdict_block(1, 3, q, optim=[7], perm=[0], shuf=[0])
-    out += _verdict_block(1, 3, q, optim=[0], perm=[5], shuf=[0])
     # 4 rules over fam 0 (5985 multisets): default optim, given order
     out += _verdict_block(0, 4, q, optim=[7], perm=[0], shuf=[0])
     if tier == "quick":
         return out
     t = 6500
     out += _verdict_block(0, 4, t, optim=[0], perm=M4_PERMS, shuf=[0])
-    out += _verdict_block(0, 3, q, optim=[8], perm=[0], shuf=[2, 3, 4])
+    out += _verdict_block(0, 3, q, optim=[8], perm=[0], shuf=[1, 2, 3, 4])
     out += _verdict_block(0, 3, q, optim=[7], perm=[1, 2, 3, 4], shuf=[0])
-    out += _verdict_block(1, 3, t, optim=[0], perm=[0, 1, 2, 3, 4], shuf=[0])
-    out += _verdict_block(1, 3, t, optim=[1, 2, 3, 4, 5, 6], perm=[0], shuf=[0])
-    out += _verdict_block(1, 3, t, optim=[7], perm=[5], shuf=[0])
+    out += _verdict_block(1, 3, t, optim=[0], perm=[0, 1, 2, 3, 4, 5], shuf=[0])
+    out += _verdict_block(1, 3, t, optim=[3, 5, 6], perm=[0], shuf=[0])
     out += _verdict_block(2, 3, t, optim=[7], perm=[0], shuf=[0])                       # {S,A,B} x {f}: 19600
     out += _verdict_block(3, 3, t, optim=[7], perm=[0], shuf=[0])                       # {S,A,B} x {f,g}: 50116
-    out += _verdict_block(3, 3, t, optim=[0], perm=[5], shuf=[0])
-    out += _verdict_block(1, 4, t, optim=[7], perm=[0], shuf=[0])                       # 23751
-    out += _verdict_block(5, 2, t, factor=20)                                           # 2415 x everything
+    out += _verdict_block(5, 2, t, factor=10, perm=[0])                                 # 2415 x optim x shuffle
     return out
+
+
+# DFA(2,1) with start state 0, as pins (d0, d1, finals): delta(0,a), delta(1,a) in none/0/1 = 0/1/2
+Q_DFAS = [dict(d0=2, d1=d1, finals=f) for d1 in (0, 1, 2) for f in (1, 2, 3)] + \
+         [dict(d0=0, d1=0, finals=1), dict(d0=1, d1=0, finals=1)]
+
+
+def _with(base, variants):
+    return [dict(base, **v) for v in variants]
 
 
 def _shards_inter(tier):
     out = []
-    # fam 4 = {S,A} x {f} x {a, epsilon}: 20 rules, 210 multisets of 2; DFAs with start state 0
-    out += product_pins(fam=[4], m=[2], ng=[1], grp=[0], optim=[0], perm=[0], start=[1],
-                        finals=[1, 2, 3], d0=[0, 1, 2])                                 # d1 free: 630 each
-    out += product_pins(fam=[4], m=[2], ng=[1], grp=[0], optim=[7], perm=[0], start=[1],
-                        d0=[2], d1=[1])                                                 # finals free: 840
-    out += product_pins(fam=[4], m=[2], ng=[1], grp=[0], optim=[0], perm=[1], start=[0],
-                        d0=[2], d1=[1])                                                 # no start state
-    # one rule, every optim 0..7, every DFA with a start state and delta(0,a)=1
-    out += product_pins(fam=[4], m=[1], ng=[1], grp=[0], start=[1], d0=[2])             # 20*8*3*4 = 1920
-    # three rules containing S->a (c0 = 0) or S->epsilon but not S->a (c0 = 1)
+    # fam 4 = {S,A} x {f} x {a, epsilon}: 20 rules, 210 multisets of 2
+    base = dict(fam=4, m=2, ng=1, grp=0, optim=0, perm=0, start=1)
+    out += _with(base, Q_DFAS)                                                          # 11 x 210
+    out += _with(dict(base, optim=7), [dict(d0=2, d1=1, finals=1), dict(d0=2, d1=1, finals=2)])
+    out += [dict(base, perm=1, start=0, d0=2, d1=1, finals=2)]                          # no start state
+    # one rule, every optim 0..7, delta(0,a)=1, final set {1}, delta(1,a) free
+    out += [dict(fam=4, m=1, ng=1, grp=0, start=1, d0=2, finals=2)]                     # 20*8*3
+    # three rules whose least is S->a (c0=0) / S->epsilon (c0=1); no 2-cycle (the library's own emptiness
+    # takes seconds to minutes natively on S->a, S->SS-like grammars x the 2-cycle DFA)
     out += product_pins(fam=[4], m=[3], ng=[1], grp=[0], optim=[0], perm=[0], start=[1], d0=[2],
-                        c0=[0, 1], finals=[1, 2])                                       # d1 free: ~600 each
+                        c0=[0, 1], d1=[0, 2], finals=[1, 2])
     if tier == "quick":
         return out
     out += product_pins(fam=[4], m=[3], ng=[2], grp=[0, 1], optim=[0], perm=[0], start=[1],
-                        finals=[1, 2, 3], d0=[0, 1, 2])                                 # 1540 x 27 DFAs
-    out += product_pins(fam=[4], m=[2], ng=[1], grp=[0], optim=[7], perm=[0, 1], start=[1],
-                        finals=[1, 2, 3], d0=[0, 1])
+                        d0=[0, 1, 2], d1=[0, 2], finals=[1, 2, 3])                      # 1540 x 18 DFAs
+    out += product_pins(fam=[4], m=[2], ng=[1], grp=[0], optim=[7], perm=[0], start=[1],
+                        finals=[1, 2, 3], d0=[0, 1, 2])                                 # d1 free
     out += product_pins(fam=[4], m=[2], ng=[1], grp=[0], optim=[1, 2, 3, 4, 5, 6], perm=[0], start=[1],
-                        d0=[2], finals=[1, 2])
+                        d0=[2], finals=[1, 2])                                          # d1 free
     out += product_pins(fam=[4], m=[2], ng=[1], grp=[0], optim=[0], perm=[1], start=[1],
-                        finals=[1, 2, 3], d0=[0, 1, 2])
+                        finals=[1, 2, 3], d0=[0, 1, 2])                                 # reversed order
     out += product_pins(fam=[5], m=[2], ng=[2], grp=[0, 1], optim=[0], perm=[0], start=[1], d0=[2],
-                        finals=[1, 2, 3])                                               # 2415 x 9 DFAs
-    out += product_pins(fam=[4], m=[2], ng=[1], grp=[0], optim=[0], perm=[0], start=[0])  # no start: 36 DFAs
+                        d1=[0, 2], finals=[1, 2, 3])                                    # 2415 x 6 DFAs
+    out += product_pins(fam=[4], m=[2], ng=[1], grp=[0], optim=[0], perm=[0], start=[0],
+                        d0=[0, 1, 2])                                                   # no start: 36 DFAs
     return out
 
 
@@ -570,24 +575,24 @@ ASSUME = ["start variable is the default 'S' (rule_ordering and FST.intersection
 
 Q_VERDICT = ("rule lists over variables {S,A}, terminal a, start S: (i) all 1140 multisets of 3 rules over index "
              "{f} (18 rules: end, production, consumption, duplication; duplicates included) x all 6 orders at "
-             "optim 0, x orders {given, reversed} at optim 7, x given order at optim 1-6, x optim 8 with shuffle "
-             "permutations {1,5}; (ii) all lists of 0-2 such rules x every order x every optim 0-8 x every "
-             "shuffle; (iii) all 3276 multisets of 3 rules over indices {f,g} (26 rules) at optim 7 given order "
-             "and optim 0 reversed order; (iv) all 5985 multisets of 4 rules over index {f} at optim 7")
+             "optim 0, x orders {given, reversed} at optim 7, x given order at optim 1-6, x optim 8 with the "
+             "reversing shuffle; (ii) all lists of 0-2 such rules x every order x every optim 0-8 x every "
+             "shuffle; (iii) all 3276 multisets of 3 rules over indices {f,g} (26 rules) at optim 7; (iv) all "
+             "5985 multisets of 4 rules over index {f} at optim 7")
 T_VERDICT = ("quick, plus: 4 rules over {S,A}x{f} at optim 0 in 8 orders (identity, reverse, rotations, adjacent "
              "swaps); 3 rules over {S,A}x{f}: optim 8 with every shuffle, optim 7 in every order; 3 rules over "
-             "{S,A}x{f,g}: every order at optim 0, optim 1-6, optim 7 reversed; all 19600 multisets of 3 rules "
-             "over {S,A,B}x{f} and all 50116 over {S,A,B}x{f,g} (66 rules) at optim 7 (the latter also optim 0 "
-             "reversed); all 23751 multisets of 4 rules over {S,A}x{f,g} at optim 7; all 2415 pairs of rules over "
-             "{S,A,B}x{f,g}x{a,epsilon} x every order x every optim x every shuffle")
-Q_INTER = ("rule lists over {S,A}, index {f}, terminals {a, 'epsilon'} (20 rules), start S: all 210 multisets of 2 "
-           "rules x all 27 DFAs over {a} with states {0,1}, start 0, non-empty final set (optim 0); x the 4 final "
-           "sets of the 2-cycle DFA at optim 7; x the same without start state; every single rule x optim 0-7 x "
-           "the 12 DFAs with delta(0,a)=1; all 400 multisets of 3 rules whose least rule is S->a or S->epsilon x "
-           "6 DFAs (delta(0,a)=1, final set {0} or {1})")
-T_INTER = ("quick, plus: all 1540 multisets of 3 rules x 27 DFAs (optim 0); 2 rules x 18 DFAs x both orders at "
-           "optim 7; 2 rules x optim 1-6 x 6 DFAs; 2 rules in reversed order x 27 DFAs; all 2415 pairs of rules "
-           "over {S,A,B}x{f,g}x{a,epsilon} x 9 DFAs; 2 rules x all 36 DFAs without start state")
+             "{S,A}x{f,g}: every order at optim 0, optim 3, 5, 6; all 19600 multisets of 3 rules over {S,A,B}x{f} "
+             "and all 50116 over {S,A,B}x{f,g} (66 rules) at optim 7; all 2415 pairs of rules over "
+             "{S,A,B}x{f,g}x{a,epsilon} x every optim x every shuffle")
+Q_INTER = ("rule lists over {S,A}, index {f}, terminals {a, 'epsilon'} (20 rules), start S; DFAs over {a} with "
+           "states {0,1}: all 210 multisets of 2 rules x 11 DFAs with start 0 (delta(0,a)=1 x delta(1,a) in "
+           "{none,0,1} x final set in {{0},{1},{0,1}}; the one-state DFAs of {eps} and a*) at optim 0; x the "
+           "2-cycle DFA with final set {0} / {1} at optim 7; x the 2-cycle DFA without start state; every single "
+           "rule x optim 0-7 x 3 DFAs; all 400 multisets of 3 rules whose least rule is S->a or S->epsilon x 4 "
+           "DFAs (delta(0,a)=1, delta(1,a) in {none,1}, final set {0} or {1})")
+T_INTER = ("quick, plus: all 1540 multisets of 3 rules x the 18 DFAs with delta(1,a) != 0 (optim 0); 2 rules x "
+           "27 DFAs at optim 7 and in reversed order at optim 0; 2 rules x optim 1-6 x 6 DFAs; all 2415 pairs "
+           "of rules over {S,A,B}x{f,g}x{a,epsilon} x 6 DFAs; 2 rules x all 36 DFAs without start state")
 
 CONDS = [
     Cond("C17", c17_verdict, _shards_verdict, {"quick": Q_VERDICT, "thorough": T_VERDICT},
@@ -595,5 +600,6 @@ CONDS = [
          stubs=[STUB_TEXT], assumptions=ASSUME, shard_timeout={"quick": 1500, "thorough": 6000}),
     Cond("C17", c17_inter, _shards_inter, {"quick": Q_INTER, "thorough": T_INTER},
          FUNCS_INTER, "non-trivial grammar and a DFA with a start state, a final state and an edge",
-         stubs=[], assumptions=ASSUME, shard_timeout={"quick": 1500, "thorough": 6000}),
+         stubs=[], assumptions=ASSUME, per_path_timeout=600.0,
+         shard_timeout={"quick": 1500, "thorough": 6000}),
 ]
